@@ -355,4 +355,73 @@ theorem merge_tree_regenerated_spec (grow : Int → Int → Int) (env : MapEnv) 
     rw [GetValueAtQuantile_param hG q, ← c7 q hq]
     exact GetValueAtQuantile_rel env s1 q
 
+/-! ### weighted histories (C11) on regenerated code -/
+
+section weighted
+open Content
+
+/-- a quantile answer of the model sketch related to the regenerated one is the regenerated answer -/
+theorem quantile_transport {grow : Int → Int → Int} {env : MapEnv} {a : DDSketch MapEnv (GPS grow)} {s : Sketch}
+    (h : SkSim a (toGen env s)) (q v : F64) (hq : Sketch.quantile env s q = .ok v) :
+    DDSketch.GetValueAtQuantile a q = (v, GoErr.nil) := by
+  rw [GetValueAtQuantile_param h q]
+  exact (GetValueAtQuantile_rel env s q).ok hq
+
+/-- **C11 on regenerated code, sketch and store**: after any weighted insertion history (`|v| ≤ maxIndexable`,
+    `c ≥ 0`, int32 indexes) into the default sketch, for every growth policy of the runtime: no `AddWithCount` is
+    refused, and there are canonical contents `cp`, `cn` holding at every index the total weight the mapping
+    sends there such that `GetCount`, `IsEmpty` are those of `cp`, `cn` and the zero count, and
+    `GetValueAtQuantile(q)` returns (with a nil error) the bin described by the three-way statement of
+    `Lift.quantile_weighted_history_any_store` (`C11.quantile_weighted`), under its exactness hypothesis `QExact`. -/
+theorem weighted_history_regenerated (grow : Int → Int → Int)
+    (env : MapEnv) (α mn mx : Rat) (C : Contract env α mn mx)
+    (xs : List (Rat × Rat)) (hx : ∀ p ∈ xs, rabs p.1 ≤ mx ∧ 0 ≤ p.2)
+    (hx32 : ∀ p ∈ xs, mn < rabs p.1 → Lift.I32 (env.index (.fin (rabs p.1)))) :
+    let g := runAdds (NewDDSketch env (⟨NewBufferedPaginatedStore⟩ : GPS grow) ⟨NewBufferedPaginatedStore⟩)
+      (ratAdds xs)
+    g.2 = List.replicate xs.length GoErr.nil ∧
+    ∃ cp cn : Content, cp.WF ∧ cn.WF ∧
+      (∀ j, cp.lookup j =
+        Content.lookup ((xs.filter (fun p => decide (mn < p.1))).map
+          (fun p => (env.index (.fin (rabs p.1)), p.2))) j) ∧
+      (∀ j, cn.lookup j =
+        Content.lookup ((xs.filter (fun p => decide (p.1 < -mn))).map
+          (fun p => (env.index (.fin (rabs p.1)), p.2))) j) ∧
+      DDSketch.GetCount g.1 =
+        F64.add (F64.add (DDSketch.GetZeroCount g.1) (.fin cp.total)) (.fin cn.total) ∧
+      ∀ z q r0 : Rat, DDSketch.GetZeroCount g.1 = .fin z → 0 ≤ z → 0 ≤ q → q ≤ 1 →
+        0 < z + cp.total + cn.total → QExact cp cn z q r0 →
+        (clampRank r0 < cn.total ∧ ∃ j w, (j, w) ∈ cn ∧
+            DDSketch.GetValueAtQuantile g.1 (.fin q) = (F64.neg (env.value j), GoErr.nil) ∧
+            cn.total - cumul cn j < min (clampRank r0 + 1) cn.total ∧
+            min (clampRank r0 + 1) cn.total ≤ cn.total - cumul cn (j - 1)) ∨
+        (cn.total ≤ clampRank r0 ∧ clampRank r0 < z + cn.total ∧
+            DDSketch.GetValueAtQuantile g.1 (.fin q) = (.fin 0, GoErr.nil)) ∨
+        (z + cn.total ≤ clampRank r0 ∧ ∃ j w, (j, w) ∈ cp ∧
+            DDSketch.GetValueAtQuantile g.1 (.fin q) = (env.value j, GoErr.nil) ∧
+            z + cn.total + cumul cp (j - 1) ≤ clampRank r0 ∧
+            clampRank r0 < z + cn.total + cumul cp j) := by
+  intro g
+  obtain ⟨s, cp, cn, h1, R, lp, ln, hq⟩ :=
+    DDS.Lift.quantile_weighted_history_any_store .pag trivial env α mn mx C xs hx hx32
+  have hmn0 : 0 ≤ mn := Rat.le_of_lt C.minPos
+  have hm := model_runAdds_w env mn C.minEq hmn0 xs _ s h1
+  obtain ⟨e1, sS⟩ := runAdds_param (grow := grow) (ratAdds xs) (skSim_new env)
+    (routed32_ratAdds env mn C.minEq hmn0 xs hx32)
+  rw [NewDDSketch_eq env (some env.id) .pag, hm] at e1 sS
+  have hS : SkSim g.1 (toGen env s) := sS
+  refine ⟨e1, cp, cn, R.pos.wf, R.neg.wf, lp, ln, ?_, ?_⟩
+  · rw [GetCount_param hS, GetZeroCount_param hS, GetCount_eq, GetZeroCount_eq]
+    show F64.add (F64.add s.zero (.fin s.pos.totalCount)) (.fin s.neg.totalCount) = _
+    rw [R.pos.total, R.neg.total]
+  · intro z q r0 hz0 hz hq0 hq1 hW hE
+    have hz0' : s.zero = .fin z := by
+      rw [GetZeroCount_param hS, GetZeroCount_eq] at hz0; exact hz0
+    rcases hq z q r0 hz0' hz hq0 hq1 hW hE with ⟨a, j, w, hj, hv, b, c⟩ | ⟨a, b, hv⟩ | ⟨a, j, w, hj, hv, b, c⟩
+    · exact Or.inl ⟨a, j, w, hj, quantile_transport hS _ _ hv, b, c⟩
+    · exact Or.inr (Or.inl ⟨a, b, quantile_transport hS _ _ hv⟩)
+    · exact Or.inr (Or.inr ⟨a, j, w, hj, quantile_transport hS _ _ hv, b, c⟩)
+
+end weighted
+
 end DDS.Props.C02GenPag
